@@ -1,6 +1,6 @@
 (** The RandomGen theorems for fragment F2 ([Frag.frag2]: F1 plus weighted
     crossed levels and a crossing weight), stated on the interface functions
-    [keys_of] / [decode_key] / [accepts] / [cand_tseq] / [key_accepted] of
+    [keys_of] / [decode_key] / [accepts] / [cand_fseq] / [key_accepted] of
     Random/Enum.v and Random/FragSem.v.
 
     With weights the model runs the memoised counter / unranker for
@@ -13,7 +13,7 @@
 From Coq Require Import ZArith List Bool Arith Lia.
 From SP Require Import Design.Flat Design.Layout Design.Sem Comb.CombModel Comb.CombSpec Random.Enum Random.Frag
   Random.FragSem Random.RunLemmas Random.FragPerm Random.Frag0Enum Random.Frag0Decode Random.Frag0Sem Random.Frag0Valid
-  Random.Frag0Keys Random.Frag0Inj Random.Frag0Complete Random.Frag1Cons Random.Frag2Cross.
+  Random.Frag0Keys Random.Frag0Inj Random.Frag0Complete Random.Frag1Cons Random.Frag2Cross Random.Implied.
 From SP Require Comb.PermProofs Encode.CodeSem.
 Import ListNotations.
 Open Scope nat_scope.
@@ -74,10 +74,18 @@ Proof.
 Qed.
 
 (** the rejection test on the candidate of an in-range key decides validity *)
-Lemma f2_accepts_valid k r : key_ok fb k -> (forall g, row_of_run r g = decoded_row fb k g) ->
-  accepts fb r = valid_b S0 (tseq_of_run fb r).
+(** the rows of the factors of [act_design] in the whole sequence of a candidate *)
+Lemma cand_act_row k r g : key_ok fb k -> (forall g, row_of_run r g = decoded_row fb k g) -> In g (fl_act fb) ->
+  nth g (cand_seq fb r) [] = decoded_row fb k g.
 Proof.
-  intros Hk Hrow. rewrite (f0_valid_base fb HF Hq k Hk r Hrow).
+  intros Hk Hrow Ha. unfold cand_seq. rewrite (fill_act_row fb HF Hq k Hk r Hrow g Ha).
+  rewrite tseq_nth by (apply (act_lt fb HF); exact Ha). apply Hrow.
+Qed.
+
+Lemma f2_accepts_valid k r : key_ok fb k -> (forall g, row_of_run r g = decoded_row fb k g) ->
+  accepts fb r = valid_b S0 (cand_seq fb r).
+Proof.
+  intros Hk Hrow. unfold cand_seq. rewrite (f0_valid_base fb HF Hq k Hk r Hrow).
   unfold accepts. rewrite Hen.
   destruct (f0_trials fb (f0_unpack fb HF)) as [HT | [Hnr Hone]].
   - rewrite (f2_violated fb HF m lm r); [rewrite negb_involutive; reflexivity|].
@@ -109,7 +117,7 @@ Qed.
 
 Lemma f2m_accept_sound k cand :
   In k (keys_of fb) -> decode_key fb k = Some cand -> accepts fb cand = true ->
-  valid_b S0 (tseq_of_run fb cand) = true.
+  valid_b S0 (cand_seq fb cand) = true.
 Proof.
   intros Hin Hdec Hacc. pose proof (f2_keys_of_ok k Hin) as Hk.
   destruct (f2_decode_key k Hk) as [r [Hd Hrow]]. rewrite Hd in Hdec. inversion Hdec; subst cand.
@@ -119,13 +127,13 @@ Qed.
 Lemma f2m_cand_inj k1 k2 c1 c2 :
   In k1 (keys_of fb) -> In k2 (keys_of fb) ->
   decode_key fb k1 = Some c1 -> decode_key fb k2 = Some c2 ->
-  tseq_of_run fb c1 = tseq_of_run fb c2 -> k1 = k2.
+  cand_seq fb c1 = cand_seq fb c2 -> k1 = k2.
 Proof.
   intros H1 H2 D1 D2 E. pose proof (f2_keys_of_ok k1 H1) as Hk1. pose proof (f2_keys_of_ok k2 H2) as Hk2.
   destruct (f2_decode_key k1 Hk1) as [r1 [Hd1 Hr1]]. destruct (f2_decode_key k2 Hk2) as [r2 [Hd2 Hr2]].
   rewrite Hd1 in D1. rewrite Hd2 in D2. inversion D1; inversion D2; subst c1 c2.
   apply (f0_decode_inj fb HF Hq k1 k2 Hk1 Hk2). intros g Hg.
-  rewrite <- Hr1, <- Hr2, <- !tseq_nth by exact Hg. rewrite E. reflexivity.
+  rewrite <- (cand_act_row k1 r1 g Hk1 Hr1 Hg), <- (cand_act_row k2 r2 g Hk2 Hr2 Hg), E. reflexivity.
 Qed.
 
 Lemma f2m_keys_nodup : NoDup (keys_of fb).
@@ -152,39 +160,75 @@ Qed.
 Lemma f2m_keys_count : fl_errors_fail fb = false -> Z.of_nat (length (keys_of fb)) = possible_keys fb en.
 Proof. intros He. rewrite (f2_keys_of_full He). apply (f0_keys_length fb HF m lm HM). Qed.
 
+(** the rows of the implied factors of a valid sequence are what [fill_implied] computes *)
+Lemma implied_rows_of_valid s r g : valid_b S0 s = true ->
+  (forall x, In x (fl_act fb) -> nth x (tseq_of_run fb r) [] = nth x s []) ->
+  g < n -> ~ In g (fl_act fb) -> implied_row fb (tseq_of_run fb r) g = nth g s [].
+Proof.
+  intros Hv Hrows Hg Hna. destruct (f0_sem_factor_some fb HF g Hg) as [fd Hfd].
+  destruct (f0_sem_implied fb HF g fd Hna Hfd) as (d & w & Hd & Hw & Hnl & Hsu & Hder & Hdeps & Hex).
+  set (dw := {| w_deps := win_deps w; w_width := 1; w_stride := 1; w_start := 0; w_table := map lv_accepts (ff_levels d) |}) in *.
+  (* exactly one level is accepted in every trial of [s] *)
+  assert (Hexact : forall t, t < s_trials S0 -> exists l0, l0 < f_nlevels fd /\ Sem.accepts dw l0 (window_args s fd dw t) = true /\
+             forall l, l < f_nlevels fd -> Sem.accepts dw l (window_args s fd dw t) = true -> l = l0).
+  { intros t Ht. rewrite (f0_sem_trials fb HF) in Ht.
+    destruct (f0_implied_exact fb HF g fd s t Hna Hfd) as (dw' & l0 & Hder' & _ & _ & _ & _ & _ & H1 & H2 & H3).
+    - intros x Hx. destruct (lvl_cell fb HF Hq s Hv x t Hx Ht) as [Hc Hl]. eexists. split; [exact Hc | exact Hl].
+    - rewrite Hder in Hder'. inversion Hder'; subst dw'. exists l0. auto. }
+  assert (Hpick_s : forall t, t < s_trials S0 -> pick fd dw s t <> None).
+  { intros t Ht. destruct (Hexact t Ht) as (l0 & Hl0 & Ha & _). unfold pick. intros Hnone.
+    pose proof (find_none _ _ Hnone l0 ltac:(apply in_seq; lia)) as Hn. cbv beta in Hn. congruence. }
+  assert (Hpick_eq : forall t, pick fd dw (tseq_of_run fb r) t = pick fd dw s t).
+  { intros t. apply (pick_ext fd dw eq_refl Hsu). intros x Hx. unfold get_cell. rewrite (Hrows x (Hdeps x Hx)). reflexivity. }
+  destruct (v_parts fb HF Hq s Hv) as (_ & Hfac & _).
+  unfold implied_row. fold S0. rewrite Hfd, Hder.
+  rewrite (derive_row_spec S0 g fd dw Hder eq_refl eq_refl eq_refl Hsu (tseq_of_run fb r))
+    by (intros t Ht; rewrite Hpick_eq; apply Hpick_s; exact Ht).
+  rewrite (factor_ok_unique S0 g fd dw Hder eq_refl eq_refl eq_refl Hsu s).
+  - apply map_ext. intros t. apply Hpick_eq.
+  - intros t l1 l2 Ht Hl1 Hl2 A1 A2. destruct (Hexact t Ht) as (l0 & _ & _ & Hun). rewrite (Hun l1 Hl1 A1), (Hun l2 Hl2 A2). reflexivity.
+  - apply Hfac. exact Hfd.
+Qed.
+
 Lemma f2m_accept_complete s :
   fl_errors_fail fb = false -> valid_b S0 s = true ->
   exists k cand, In k (keys_of fb) /\ decode_key fb k = Some cand /\ accepts fb cand = true /\
-                 tseq_of_run fb cand = s.
+                 cand_seq fb cand = s.
 Proof.
   intros He Hv. pose proof (the_key_ok fb HF Hq s Hv) as Hk.
   destruct (f2_decode_key _ Hk) as [r [Hd Hrow]].
-  assert (Hs : tseq_of_run fb r = s).
+  assert (Hact_rows : forall x, In x (fl_act fb) -> nth x (tseq_of_run fb r) [] = nth x s []).
+  { intros x Hx. rewrite tseq_nth by (apply (act_lt fb HF); exact Hx). rewrite Hrow. apply (the_key_rows fb HF Hq s Hv x Hx). }
+  assert (Hs : cand_seq fb r = s).
   { apply (nth_ext _ _ [] []).
-    - unfold tseq_of_run. rewrite map_length, seq_length. symmetry. apply (v_length fb HF Hq s Hv).
-    - intros g Hg. unfold tseq_of_run in Hg. rewrite map_length, seq_length in Hg.
-      rewrite tseq_nth by exact Hg. rewrite Hrow. apply (the_key_rows fb HF Hq s Hv g Hg). }
+    - unfold cand_seq, fill_implied. rewrite map_length, seq_length. symmetry. apply (v_length fb HF Hq s Hv).
+    - intros g Hg. unfold cand_seq, fill_implied in Hg. rewrite map_length, seq_length in Hg.
+      destruct (in_dec Nat.eq_dec g (fl_act fb)) as [Ha | Hna].
+      + rewrite (cand_act_row _ r g Hk Hrow Ha). apply (the_key_rows fb HF Hq s Hv g Ha).
+      + unfold cand_seq. rewrite (fill_nth fb HF Hq _ Hk r Hrow g Hg).
+        destruct (isact fb g) eqn:Ea; [apply (isact_In fb HF) in Ea; contradiction|].
+        apply (implied_rows_of_valid s r g Hv Hact_rows Hg Hna). }
   exists (the_key fb s), r. split; [rewrite (f2_keys_of_full He); apply (f0_keys_In fb HF m lm HM); exact Hk|].
   split; [exact Hd|]. split; [|exact Hs].
   rewrite (f2_accepts_valid _ r Hk Hrow), Hs. exact Hv.
 Qed.
 
 Lemma f2m_key_accepted_spec k : In k (keys_of fb) ->
-  key_accepted fb k = valid_b S0 (cand_tseq fb k).
+  key_accepted fb k = valid_b S0 (cand_fseq fb k).
 Proof.
   intros Hin. pose proof (f2_keys_of_ok k Hin) as Hk. destruct (f2_decode_key k Hk) as [r [Hd Hrow]].
-  unfold key_accepted, cand_tseq. rewrite Hd. apply (f2_accepts_valid k r Hk Hrow).
+  unfold key_accepted, cand_fseq. rewrite Hd. apply (f2_accepts_valid k r Hk Hrow).
 Qed.
 
 Lemma f2m_accepted_exact :
   fl_errors_fail fb = false ->
-  NoDup (map (cand_tseq fb) (accepted_keys fb)) /\
-  (forall s, In s (map (cand_tseq fb) (accepted_keys fb)) <-> valid_b S0 s = true).
+  NoDup (map (cand_fseq fb) (accepted_keys fb)) /\
+  (forall s, In s (map (cand_fseq fb) (accepted_keys fb)) <-> valid_b S0 s = true).
 Proof.
   intros He. split.
   - apply NoDup_map_inj_in; [|apply NoDup_filter, f2m_keys_nodup].
     intros k1 k2 H1 H2 E. apply filter_In in H1. apply filter_In in H2. destruct H1 as [H1 _]. destruct H2 as [H2 _].
-    unfold cand_tseq in E.
+    unfold cand_fseq in E.
     destruct (f2_decode_key k1 (f2_keys_of_ok k1 H1)) as [r1 [Hd1 _]].
     destruct (f2_decode_key k2 (f2_keys_of_ok k2 H2)) as [r2 [Hd2 _]].
     rewrite Hd1, Hd2 in E. apply (f2m_cand_inj k1 k2 r1 r2 H1 H2 Hd1 Hd2 E).
@@ -192,7 +236,7 @@ Proof.
     + intros Hin. apply in_map_iff in Hin. destruct Hin as [k [E Hk]]. apply filter_In in Hk. destruct Hk as [Hk Ha].
       rewrite (f2m_key_accepted_spec k Hk) in Ha. rewrite E in Ha. exact Ha.
     + intros Hv. destruct (f2m_accept_complete s He Hv) as (k & cand & Hk & Hd & Ha & E).
-      apply in_map_iff. exists k. split; [unfold cand_tseq; rewrite Hd; exact E|].
+      apply in_map_iff. exists k. split; [unfold cand_fseq; rewrite Hd; exact E|].
       apply filter_In. split; [exact Hk|]. unfold key_accepted. rewrite Hd. exact Ha.
 Qed.
 
@@ -201,7 +245,7 @@ Lemma f2m_rejection_free_accepts k : rejection_free fb = true -> In k (keys_of f
 Proof.
   intros Hrf Hin. rewrite (f2m_key_accepted_spec k Hin).
   pose proof (f2_keys_of_ok k Hin) as Hk. destruct (f2_decode_key k Hk) as [r [Hd Hrow]].
-  unfold cand_tseq. rewrite Hd. rewrite (f0_valid_base fb HF Hq k Hk r Hrow).
+  unfold cand_fseq. rewrite Hd. unfold cand_seq. rewrite (f0_valid_base fb HF Hq k Hk r Hrow).
   unfold rejection_free in Hrf. apply andb_prop in Hrf. destruct Hrf as [Hrf Hone]. apply Nat.leb_le in Hone.
   assert (Ho : f0_ocrossings fb = []).
   { unfold f0_ocrossings. rewrite (f0_crossings fb (f0_unpack fb HF)) in Hone. cbn in Hone.
@@ -212,18 +256,18 @@ Proof.
   rewrite forallb_forall in Hrf. pose proof (Hrf x Hx) as Hk'.
   destruct x; try discriminate; try (destruct Hdc; fail).
   destruct Hdc as [E | []]. subst dc.
-  pose proof (f0_constraints fb (f0_unpack fb HF) _ Hx) as Hc. cbn [constraint_f1] in Hc.
-  apply andb_prop in Hc. destruct Hc as [Hf _]. apply Nat.ltb_lt in Hf.
+  pose proof (f0_constraints fb (f0_unpack fb HF) _ Hx) as Hc. cbn [constraint_f2] in Hc.
+  apply andb_prop in Hc. destruct Hc as [Hf _]. apply (isact_In fb HF) in Hf.
   unfold constraint_ok, CodeSem.mk_c. cbn [k_kind k_factor k_level].
-  rewrite tseq_nth by exact Hf. rewrite Hrow. apply Nat.eqb_eq.
+  rewrite tseq_nth by (apply (act_lt fb HF); exact Hf). rewrite Hrow. apply Nat.eqb_eq.
   apply (decoded_row_not_excluded fb HF Hq k f l Hk Hf Hx).
 Qed.
 
 Lemma f2m_count_exact :
   fl_errors_fail fb = false -> rejection_free fb = true ->
-  NoDup (map (cand_tseq fb) (keys_of fb)) /\
-  (forall s, In s (map (cand_tseq fb) (keys_of fb)) <-> valid_b S0 s = true) /\
-  Z.of_nat (length (map (cand_tseq fb) (keys_of fb))) = possible_keys fb en.
+  NoDup (map (cand_fseq fb) (keys_of fb)) /\
+  (forall s, In s (map (cand_fseq fb) (keys_of fb)) <-> valid_b S0 s = true) /\
+  Z.of_nat (length (map (cand_fseq fb) (keys_of fb))) = possible_keys fb en.
 Proof.
   intros He Hrf.
   assert (Hall : accepted_keys fb = keys_of fb).
@@ -308,7 +352,7 @@ Qed.
 (** C04 on F2 *)
 Theorem f2_accept_sound k cand :
   In k (keys_of fb) -> decode_key fb k = Some cand -> accepts fb cand = true ->
-  valid_b S0 (tseq_of_run fb cand) = true.
+  valid_b S0 (cand_seq fb cand) = true.
 Proof.
   intros Hin. destruct f2_cases as [E | (m & lm & HM & Hen)]; [rewrite E in Hin; destruct Hin|].
   apply (f2m_accept_sound fb HF m lm HM Hen k cand Hin).
@@ -318,7 +362,7 @@ Qed.
 Theorem f2_cand_inj k1 k2 c1 c2 :
   In k1 (keys_of fb) -> In k2 (keys_of fb) ->
   decode_key fb k1 = Some c1 -> decode_key fb k2 = Some c2 ->
-  tseq_of_run fb c1 = tseq_of_run fb c2 -> k1 = k2.
+  cand_seq fb c1 = cand_seq fb c2 -> k1 = k2.
 Proof.
   intros H1. destruct f2_cases as [E | (m & lm & HM & Hen)]; [rewrite E in H1; destruct H1|].
   apply (f2m_cand_inj fb HF m lm HM Hen k1 k2 c1 c2 H1).
@@ -334,7 +378,7 @@ Qed.
 Theorem f2_accept_complete s :
   enumerates fb -> fl_errors_fail fb = false -> valid_b S0 s = true ->
   exists k cand, In k (keys_of fb) /\ decode_key fb k = Some cand /\ accepts fb cand = true /\
-                 tseq_of_run fb cand = s.
+                 cand_seq fb cand = s.
 Proof.
   intros Hex. destruct (f2_enumerates_memos Hex) as (m & lm & HM & Hen).
   apply (f2m_accept_complete fb HF m lm HM Hen).
@@ -343,8 +387,8 @@ Qed.
 (** C06 on F2 *)
 Theorem f2_accepted_exact :
   enumerates fb -> fl_errors_fail fb = false ->
-  NoDup (map (cand_tseq fb) (accepted_keys fb)) /\
-  (forall s, In s (map (cand_tseq fb) (accepted_keys fb)) <-> valid_b S0 s = true).
+  NoDup (map (cand_fseq fb) (accepted_keys fb)) /\
+  (forall s, In s (map (cand_fseq fb) (accepted_keys fb)) <-> valid_b S0 s = true).
 Proof.
   intros Hex. destruct (f2_enumerates_memos Hex) as (m & lm & HM & Hen).
   apply (f2m_accepted_exact fb HF m lm HM Hen).
@@ -361,9 +405,9 @@ Qed.
 Theorem f2_count_exact en :
   make_enumerator fb = ROk en -> (exists ks, all_keys fb en = ROk ks) ->
   fl_errors_fail fb = false -> rejection_free fb = true ->
-  NoDup (map (cand_tseq fb) (keys_of fb)) /\
-  (forall s, In s (map (cand_tseq fb) (keys_of fb)) <-> valid_b S0 s = true) /\
-  Z.of_nat (length (map (cand_tseq fb) (keys_of fb))) = possible_keys fb en.
+  NoDup (map (cand_fseq fb) (keys_of fb)) /\
+  (forall s, In s (map (cand_fseq fb) (keys_of fb)) <-> valid_b S0 s = true) /\
+  Z.of_nat (length (map (cand_fseq fb) (keys_of fb))) = possible_keys fb en.
 Proof.
   intros Hen [ks Hks] He Hrf. destruct (f2_memos en ks Hen Hks) as (m & lm & -> & HM).
   apply (f2m_count_exact fb HF m lm HM Hen He Hrf).
@@ -375,7 +419,7 @@ Proof.
   apply (f2m_rejection_free_accepts fb HF m lm HM Hen k Hrf Hin).
 Qed.
 
-Theorem f2_key_accepted_spec k : In k (keys_of fb) -> key_accepted fb k = valid_b S0 (cand_tseq fb k).
+Theorem f2_key_accepted_spec k : In k (keys_of fb) -> key_accepted fb k = valid_b S0 (cand_fseq fb k).
 Proof.
   intros Hin. destruct f2_cases as [E | (m & lm & HM & Hen)]; [rewrite E in Hin; destruct Hin|].
   apply (f2m_key_accepted_spec fb HF m lm HM Hen k Hin).
